@@ -147,7 +147,14 @@ func (bq *binaryQuantizer) Delete(ids ...uint64) error {
 func (bq *binaryQuantizer) Fit() error {
 	// Have we already fitted the quantizer or are there enough points to fit it? The short-circuiting
 	// here is important to avoid unnecessary work of counting the items.
-	if bq.threshold != nil || bq.items.Count() < bq.params.TriggerThreshold {
+	if bq.threshold != nil {
+		return nil
+	}
+	itemCount, err := bq.items.CountItems()
+	if err != nil {
+		return fmt.Errorf("could not count vectors to fit binary quantizer: %w", err)
+	}
+	if itemCount < bq.params.TriggerThreshold {
 		return nil
 	}
 	// ---------------------------
@@ -160,7 +167,7 @@ func (bq *binaryQuantizer) Fit() error {
 	 * to the next, and with them the bits of every vector that sits right at
 	 * the threshold. */
 	points := make([]*binaryQuantizedPoint, 0, bq.params.TriggerThreshold)
-	err := bq.items.ForEach(func(id uint64, point *binaryQuantizedPoint) error {
+	err = bq.items.ForEach(func(id uint64, point *binaryQuantizedPoint) error {
 		points = append(points, point)
 		return nil
 	})
